@@ -215,6 +215,7 @@ def N(k: str, t: int = 0, x: list | None = None, y: list | None = None) -> dict:
 
 
 ERR = N("error")
+FOREIGN = -1
 LEAFLIKE = ("leaf", "oleaf", "fset")
 
 
@@ -323,11 +324,17 @@ def abstract(obj: Any, family: str, with_cls: bool = False) -> dict:
         if with_cls:
             n["cls"] = t.__name__
         return n
-    op = oleaf_parts(obj)
-    if op is not None:
-        n = N("oleaf", unleaf(op[1], family), [], [op[0]])
+    try:
+        op = oleaf_parts(obj)
+        if op is not None:
+            return N("oleaf", unleaf(op[1], family), [], [op[0]])
+        return N("leaf", unleaf(obj, family))
+    except (KeyError, ValueError, IndexError, TypeError):
+        # an object that is no leaf of this family (e.g. an unevaluated Expression left in a result):
+        # a leaf no model tree contains, so every comparison with an expectation fails
+        n = N("leaf", FOREIGN)
+        n["foreign"] = repr(obj)[:120]
         return n
-    return N("leaf", unleaf(obj, family))
 
 
 def canon(tree: dict, ordered_dicts: bool = False, keynorm: bool = False) -> Any:
